@@ -77,6 +77,11 @@ def parseBody (body : Bytes) : Option (Nat × List Bytes × Bytes) :=
       | none => none
       | some (proof, cp) => some (old, proof, cp)
 
+/-- the body as `cmd/feedbastion` (`bastionClient.Update`) and the tlog-witness protocol write it: an
+    old-size line, one base64 line per proof hash, a blank line, the checkpoint -/
+def writeBody (old : Nat) (proof : List Bytes) (cp : Bytes) : Bytes :=
+  [111, 108, 100, 32] ++ Dec.print old ++ [B.nl] ++ proof.flatMap (fun h => B64.encode h ++ [B.nl]) ++ [B.nl] ++ cp
+
 structure Resp where
   status : Nat
   ctype : Bytes := []
